@@ -1230,6 +1230,13 @@ pub enum ArchiveReadError {
         component: String,
     },
 
+    /// An entry within the archive was a symbolic link or a hard link.
+    ///
+    /// Archives created by nextest never contain links. Extracting one would let later entries
+    /// write (or change permissions) through it, outside the `target` directory.
+    #[error("path in archive `{0}` is a symbolic or hard link, which is not supported")]
+    LinkEntry(Utf8PathBuf),
+
     /// An error occurred while reading a checksum.
     #[error("corrupted archive: checksum read error for path `{path}`")]
     ChecksumRead {
